@@ -25,13 +25,17 @@ theorem upd_apply {β : Type} (f : Nat → β) (k i : Nat) (v : β) :
 /-! ### moving the relation along updates -/
 
 theorem rel_setStore {w : World} {s : SWorld} (hR : Rel w s) (i : Nat) (sv : Server) (st : SStore)
-    (h1 : WFs sv) (h2 : SWF st) (h3 : ∀ d n, toS (sv.coll d n) = alGet? (d, n) st) :
+    (h1 : WFs sv) (h4 : RecS sv) (h2 : SWF st)
+    (h3 : ∀ d n, toS (sv.coll d n) = alGet? (d, n) st) :
     Rel (w.setStore i sv) (upd s i st) := by
-  obtain ⟨⟨hw1, hw2⟩, hs, hv⟩ := hR
-  refine ⟨⟨?_, hw2⟩, ?_, ?_⟩
+  obtain ⟨⟨hw1, hw2, hw3⟩, hs, hv⟩ := hR
+  refine ⟨⟨?_, hw2, ?_⟩, ?_, ?_⟩
   · intro j; simp only [World.setStore, upd_apply]; split
     · exact h1
     · exact hw1 j
+  · intro j; simp only [World.setStore, upd_apply]; split
+    · exact h4
+    · exact hw3 j
   · intro j; simp only [upd_apply]; split
     · exact h2
     · exact hs j
@@ -42,7 +46,8 @@ theorem rel_setStore {w : World} {s : SWorld} (hR : Rel w s) (i : Nat) (sv : Ser
 theorem rel_setStore_left {w : World} {s : SWorld} (hR : Rel w s) (i : Nat) (sv : Server)
     (h1 : WFs sv) (h3 : ∀ d n, sv.coll d n = (w.store i).coll d n) :
     Rel (w.setStore i sv) s := by
-  have := rel_setStore hR i sv (s i) h1 (hR.2.1 i) (fun d n => by rw [h3]; exact hR.2.2 i d n)
+  have := rel_setStore hR i sv (s i) h1 (recS_of_coll (hR.1.2.2 i) h3) (hR.2.1 i)
+    (fun d n => by rw [h3]; exact hR.2.2 i d n)
   have e : upd s i (s i) = s := by
     funext j; simp only [upd_apply]; split
     · rename_i h; rw [h]
@@ -59,8 +64,8 @@ theorem rel_addCollCache {w : World} {s : SWorld} (hR : Rel w s) (c : Nat) (d n 
     (hv : validName n = true) : Rel (addCollCache w c d n) s := by
   unfold addCollCache; split
   · exact hR
-  · obtain ⟨⟨hw1, hw2⟩, hs, hvw⟩ := hR
-    refine ⟨⟨hw1, ?_⟩, hs, hvw⟩
+  · obtain ⟨⟨hw1, hw2, hw3⟩, hs, hvw⟩ := hR
+    refine ⟨⟨hw1, ?_, hw3⟩, hs, hvw⟩
     intro c' d' n' hm
     simp only [upd2] at hm
     split at hm
@@ -200,12 +205,13 @@ theorem dropDatabaseStep_refines (σ : Nat → Nat) {w : World} {s : SWorld} (c 
   have hx : ∀ d' m, ((w.store (σ c)).touchDb d).coll d' m = (w.store (σ c)).coll d' m :=
     fun d' m => coll_touchDb _ d d' m
   have wx : WFs ((w.store (σ c)).touchDb d) := wfs_touchDb (hW.1 _) d
+  have rx : RecS ((w.store (σ c)).touchDb d) := recS_touchDb (hW.2.2 _) d
   split
   · refine ⟨rel_addDbCache (rel_setStore hR _ _ _
-      (wfs_setDb wx d (wfdb_dropAll (wfdb_db wx d))) (swf_dropDb (hR.2.1 _) d)
+      (wfs_setDb wx d (wfdb_dropAll (wfdb_db wx d))) (recS_dropAll rx d) (swf_dropDb (hR.2.1 _) d)
       (fun d' m => dropDb_refines d hx (hR.2.2 _) d' m)) c d, outEquiv_refl _⟩
   · rename_i hnc
-    refine ⟨rel_setStore hR _ _ _ wx (swf_dropDb (hR.2.1 _) d) ?_, outEquiv_refl _⟩
+    refine ⟨rel_setStore hR _ _ _ wx rx (swf_dropDb (hR.2.1 _) d) ?_, outEquiv_refl _⟩
     intro d' m
     rw [alGet?_dropDb, hx]
     by_cases hd : d' = d
@@ -234,10 +240,10 @@ theorem step_refines (σ : Nat → Nat) (w : World) (s : SWorld) (op : Op)
     · refine ⟨rel_addDbCache (rel_setStore_left hR _ _ (wfs_touchDb (hW.1 _) d)
         (fun d' n => coll_touchDb _ d d' n)) c d, outEquiv_refl _⟩
   | getColl h n =>
-    simp only [inD, handlesObtained, vanishes, filterFalsy, Bool.not_false, Bool.and_true] at hD
+    simp only [inD, handlesObtained, filterFalsy, Bool.not_false, Bool.and_true] at hD
     simp only [Catalog.step, Spec.Catalog.step, hD, Bool.not_true, Bool.false_eq_true, if_false]
     by_cases hc : (w.collCache h.client h.db).contains n = true
-    · have hv : validName n = true := hW.2 _ _ _ (by simpa using hc)
+    · have hv : validName n = true := hW.2.1 _ _ _ (by simpa using hc)
       simp only [hc, if_true, hv]
       exact ⟨hR, outEquiv_refl _⟩
     · simp only [hc, Bool.false_eq_true, if_false]
@@ -247,13 +253,15 @@ theorem step_refines (σ : Nat → Nat) (w : World) (s : SWorld) (op : Op)
       · simp only [hv, Bool.not_false, if_true, Bool.false_eq_true, if_false]
         exact ⟨hR, outEquiv_refl _⟩
   | coll h o =>
-    simp only [inD, handlesObtained, vanishes, filterFalsy, Bool.not_false, Bool.and_true,
+    simp only [inD, handlesObtained, filterFalsy, Bool.not_false, Bool.and_true,
       Bool.and_eq_true, Bool.not_eq_true'] at hD
-    obtain ⟨hob, hv⟩ := hD
+    have hob := hD
     simp only [Catalog.step, Spec.Catalog.step, hob, Bool.not_true, Bool.false_eq_true, if_false]
-    have hc := collOp_refines o ((w.store (σ h.client)).coll h.db h.coll) hv
+    have hrec := hW.2.2 (σ h.client) h.db h.coll
+    have hc := collOp_refines o ((w.store (σ h.client)).coll h.db h.coll) hrec
     rw [hR.2.2 (σ h.client) h.db h.coll] at hc
-    refine ⟨rel_setStore hR _ _ _ (wfs_setColl (hW.1 _) _ _ _) (swf_setOpt (hR.2.1 _) _ _) ?_,
+    refine ⟨rel_setStore hR _ _ _ (wfs_setColl (hW.1 _) _ _ _)
+      (recS_setColl (hW.2.2 _) _ _ (collOp_recorded o _ hrec)) (swf_setOpt (hR.2.1 _) _ _) ?_,
       outEquiv_of_eq hc.2⟩
     intro d n
     rw [coll_setColl, alGet?_setOpt]
@@ -264,21 +272,23 @@ theorem step_refines (σ : Nat → Nat) (w : World) (s : SWorld) (op : Op)
         intro e; exact hdn ⟨(Prod.ext_iff.mp e).1, (Prod.ext_iff.mp e).2⟩
       simp only [hdn, if_false, this]; exact hR.2.2 _ d n
   | collRename h n' dt =>
-    simp only [inD, handlesObtained, vanishes, filterFalsy, Bool.not_false, Bool.and_true,
+    simp only [inD, handlesObtained, filterFalsy, Bool.not_false, Bool.and_true,
       Bool.and_eq_true, Bool.not_eq_true'] at hD
     simp only [Catalog.step, Spec.Catalog.step, hD, Bool.not_true, Bool.false_eq_true, if_false]
     have := renameStep_refines (w.store (σ h.client)) (s (σ h.client)) h.db h.coll n' dt
       (hW.1 _) (hR.2.1 _) (hR.2.2 _)
-    exact ⟨rel_setStore hR _ _ _ this.1 this.2.1 this.2.2.1, outEquiv_of_eq this.2.2.2⟩
+    exact ⟨rel_setStore hR _ _ _ this.1 (recS_renameStep (hW.2.2 _) _ _ _ _) this.2.1 this.2.2.1,
+      outEquiv_of_eq this.2.2.2⟩
   | renameCollection h n n' dt =>
-    simp only [inD, handlesObtained, vanishes, filterFalsy, Bool.not_false, Bool.and_true,
+    simp only [inD, handlesObtained, filterFalsy, Bool.not_false, Bool.and_true,
       Bool.and_eq_true, Bool.not_eq_true'] at hD
     simp only [Catalog.step, Spec.Catalog.step, hD, Bool.not_true, Bool.false_eq_true, if_false]
     have := renameStep_refines (w.store (σ h.client)) (s (σ h.client)) h.db n n' dt
       (hW.1 _) (hR.2.1 _) (hR.2.2 _)
-    exact ⟨rel_setStore hR _ _ _ this.1 this.2.1 this.2.2.1, outEquiv_of_eq this.2.2.2⟩
+    exact ⟨rel_setStore hR _ _ _ this.1 (recS_renameStep (hW.2.2 _) _ _ _ _) this.2.1 this.2.2.1,
+      outEquiv_of_eq this.2.2.2⟩
   | createCollection h n =>
-    simp only [inD, handlesObtained, vanishes, filterFalsy, Bool.not_false, Bool.and_true,
+    simp only [inD, handlesObtained, filterFalsy, Bool.not_false, Bool.and_true,
       Bool.and_eq_true, Bool.not_eq_true'] at hD
     simp only [Catalog.step, Spec.Catalog.step, hD, Bool.not_true, Bool.false_eq_true, if_false]
     by_cases hv : validName n = true
@@ -297,6 +307,7 @@ theorem step_refines (σ : Nat → Nat) (w : World) (s : SWorld) (op : Op)
       have he : (w.store (σ h.client)).coll h.db n = Coll.empty :=
         (isCreated_false_iff _).mp (by simpa using hc)
       refine ⟨rel_addCollCache (rel_setStore hR _ _ _ (wfs_setColl (hW.1 _) _ _ _)
+        (recS_setColl (hW.2.2 _) _ _ (recorded_of_flag rfl))
         (swf_upsert (hR.2.1 _) _ _) ?_) _ _ _ hv, outEquiv_refl _⟩
       intro d m
       rw [coll_setColl, alGet?_upsert]
@@ -310,10 +321,11 @@ theorem step_refines (σ : Nat → Nat) (w : World) (s : SWorld) (op : Op)
   | dropCollection h t =>
     cases t with
     | byName n =>
-      simp only [inD, handlesObtained, vanishes, filterFalsy, Bool.not_false,
+      simp only [inD, handlesObtained, filterFalsy, Bool.not_false,
         Bool.and_true] at hD
       simp only [Catalog.step, Spec.Catalog.step, hD, Bool.not_true, Bool.false_eq_true, if_false]
-      refine ⟨rel_setStore hR _ _ _ (wfs_setColl (hW.1 _) _ _ _) (swf_erase (hR.2.1 _) _) ?_,
+      refine ⟨rel_setStore hR _ _ _ (wfs_setColl (hW.1 _) _ _ _)
+        (recS_setColl (hW.2.2 _) _ _ recorded_empty) (swf_erase (hR.2.1 _) _) ?_,
         outEquiv_refl _⟩
       intro d m
       rw [coll_setColl, alGet?_erase]
@@ -324,12 +336,13 @@ theorem step_refines (σ : Nat → Nat) (w : World) (s : SWorld) (op : Op)
           intro e; exact hdn ⟨(Prod.ext_iff.mp e).1, (Prod.ext_iff.mp e).2⟩
         simp only [hdn, if_false, this]; exact hR.2.2 _ d m
     | byHandle h' =>
-      simp only [inD, handlesObtained, vanishes, filterFalsy, Bool.not_false,
+      simp only [inD, handlesObtained, filterFalsy, Bool.not_false,
         Bool.and_true, Bool.and_eq_true] at hD
       obtain ⟨hob1, hob2⟩ := hD
       simp only [Catalog.step, Spec.Catalog.step, hob1, hob2, Bool.not_true, Bool.or_self,
         Bool.false_eq_true, if_false]
-      refine ⟨rel_setStore hR _ _ _ (wfs_setColl (hW.1 _) _ _ _) (swf_erase (hR.2.1 _) _) ?_,
+      refine ⟨rel_setStore hR _ _ _ (wfs_setColl (hW.1 _) _ _ _)
+        (recS_setColl (hW.2.2 _) _ _ recorded_empty) (swf_erase (hR.2.1 _) _) ?_,
         outEquiv_refl _⟩
       intro d m
       rw [coll_setColl, alGet?_erase]
@@ -342,14 +355,14 @@ theorem step_refines (σ : Nat → Nat) (w : World) (s : SWorld) (op : Op)
   | listCollectionNames h f =>
     cases f with
     | none =>
-      simp only [inD, handlesObtained, vanishes, filterFalsy, Bool.not_false,
+      simp only [inD, handlesObtained, filterFalsy, Bool.not_false,
         Bool.and_true] at hD
       simp only [Catalog.step, Spec.Catalog.step, hD, Bool.not_true, Bool.false_eq_true, if_false]
       refine ⟨hR, outEquiv_names (nodup_listColls (hW.1 _) _) (nodup_slistColls (hR.2.1 _) _) ?_⟩
       intro a
       rw [mem_listColls (hW.1 _), mem_slistColls, created_iff_isSome hR]
     | some f =>
-      simp only [inD, handlesObtained, vanishes, filterFalsy, Bool.not_false,
+      simp only [inD, handlesObtained, filterFalsy, Bool.not_false,
         Bool.and_true, Bool.and_eq_true, Bool.not_eq_true'] at hD
       obtain ⟨hob, hfal⟩ := hD
       simp only [Catalog.step, Spec.Catalog.step, hob, hfal, Bool.not_true, Bool.false_eq_true,
@@ -377,7 +390,7 @@ theorem step_refines (σ : Nat → Nat) (w : World) (s : SWorld) (op : Op)
       simp only [Catalog.step, Spec.Catalog.step]
       exact dropDatabaseStep_refines σ c d hR
     | byHandle h =>
-      simp only [inD, handlesObtained, vanishes, filterFalsy, Bool.not_false,
+      simp only [inD, handlesObtained, filterFalsy, Bool.not_false,
         Bool.and_true] at hD
       simp only [Catalog.step, Spec.Catalog.step, hD, Bool.not_true, Bool.false_eq_true, if_false]
       exact dropDatabaseStep_refines σ c h.db hR
